@@ -189,12 +189,21 @@ def k_otfad():
 
 
 def k_iee():
+    """Every encrypting IEE mode x key size through the public class with both keys left out: XTS (key1, key2 = the two
+    halves of the XTS key) and the three CTR flavours (key1 = AES key, key2 = initial counter)."""
     from spsdk.utils.crypto.iee import IeeKeyBlob, IeeKeyBlobAttribute, IeeKeyBlobKeyAttributes, IeeKeyBlobLockAttributes, IeeKeyBlobModeAttributes
 
-    attr = IeeKeyBlobAttribute(IeeKeyBlobLockAttributes.UNLOCK, IeeKeyBlobKeyAttributes.CTR128XTS256, IeeKeyBlobModeAttributes.AesXTS)
-    kb = IeeKeyBlob(attr, 0x30001000, 0x30001FFF)
-    data = kb.plain_data() + kb.encrypt_image(0x30001000, bytes(4096))
-    return {"key1": kb.key1, "key2": kb.key2}, data
+    fields = {}
+    data = b""
+    for mode in ("AesXTS", "AesCTRWAddress", "AesCTRWOAddress", "AesCTRkeystream"):
+        for size in ("CTR128XTS256", "CTR256XTS512"):
+            attr = IeeKeyBlobAttribute(IeeKeyBlobLockAttributes.UNLOCK, getattr(IeeKeyBlobKeyAttributes, size), getattr(IeeKeyBlobModeAttributes, mode))
+            kb = IeeKeyBlob(attr, 0x30001000, 0x30001FFF)
+            data += kb.plain_data() + kb.encrypt_image(0x30001000, bytes(4096))
+            sfx = "" if (mode, size) == ("AesXTS", "CTR128XTS256") else f"_{mode}_{size}"
+            fields["key1" + sfx] = kb.key1
+            fields["key2" + sfx] = kb.key2
+    return fields, data
 
 
 def k_bee():
